@@ -11,7 +11,7 @@ let getn () = nat_of_int (geti ())
 let getlist f = let n = geti () in List.init n (fun _ -> f ())
 let q_of num den = { qnum = z_of_int num; qden = pos_of_int den }
 let float_of_q q = float_of_int (int_of_z q.qnum) /. float_of_int (int_of_pos q.qden)
-let run_sched () =
+let run_sched alap =
   let upper = getn () in
   let start = z_of_int (geti ()) in let g = z_of_int (geti ()) in
   let getiv () = let a = z_of_int (geti ()) in let b = z_of_int (geti ()) in let c = z_of_int (geti ()) in let d = z_of_int (geti ()) in ((a, b), (c, d)) in
@@ -37,10 +37,12 @@ let run_sched () =
       { t_leaf = leaf; t_kids = kids; t_leaves = leaves; t_prio = prio; t_need = need; t_team = team; t_deps = deps;
         t_pin = (if pin < 0 then None else Some (nat_of_int pin)); t_lb = lb; t_limits = tl }) in
   let p = { p_tasks = tasks; p_res = res; p_limits = lims; p_upper = upper } in
-  let st = schedule p in
-  let rs = List.mapi (fun i _ -> match dates p st (nat_of_int i) with
-      | Some (s, e) -> Printf.sprintf "%d:%d" (int_of_nat s) (int_of_nat e) | None -> "-") tasks in
-  let bs = List.sort compare (List.map (fun b -> (int_of_nat b.b_task, int_of_nat b.b_res, int_of_nat b.b_slot)) st.bookings) in
+  (* 'alap': the project is read backwards (Model/Alap.v); the mirroring happens inside the extracted model *)
+  let results = if alap then alap_results p else all_results p in
+  let booked = if alap then alap_bookings p else all_bookings p in
+  let rs = List.map (fun d -> match d with
+      | Some (s, e) -> Printf.sprintf "%d:%d" (int_of_nat s) (int_of_nat e) | None -> "-") results in
+  let bs = List.sort compare (List.map (fun b -> (int_of_nat b.b_task, int_of_nat b.b_res, int_of_nat b.b_slot)) booked) in
   String.concat " " rs ^ " | " ^ String.concat ";" (List.map (fun (t, r, s) -> Printf.sprintf "%d,%d,%d" t r s) bs)
 let run_ledger () =
   let gn = geti () in let gd = geti () in
@@ -59,7 +61,7 @@ let () =
       let line = input_line stdin in
       toks := Array.of_list (List.filter (fun s -> s <> "") (String.split_on_char ' ' line)); pos := 0;
       let f = next () in
-      let out = try (match f with "sched" -> run_sched () | "ledger" -> run_ledger () | _ -> "UNKNOWN") with e -> "ERROR " ^ Printexc.to_string e in
+      let out = try (match f with "sched" -> run_sched false | "alap" -> run_sched true | "ledger" -> run_ledger () | _ -> "UNKNOWN") with e -> "ERROR " ^ Printexc.to_string e in
       print_endline out
     done
   with End_of_file -> ()
